@@ -24,6 +24,12 @@ CHECKS = {
   text="Seeded search (not exhaustive) over rewrite sets, transaction/group assignments, yield orders and fault sequences driven through the real scheduler, rewriter and rollback; every run is judged by an existential relational model of the statement (atomicity, no overlap, dropped-only-if with three-valued precedence, rollback justification, frame). Exploration is the right level: the quantifier is over unbounded finite rewrite sets and schedules, and the scheduler is the one component of pyrefact with transaction semantics, precedence and rollback.",
   note="Rules are synthetic (recorded yield scripts); markers/tokens are identifiers; whitespace-only replacements excluded; precedence between default-numbered transactions is treated as unspecified (any order that explains the drops is accepted). One known finding (K1, insertion anchored in front of a removed indented line) is listed in KNOWN_FINDINGS.txt.",
   ref="DESIGN.md 4 (C10), 2.2 E1"),
+ "C05": dict(
+  engine="e2_history",
+  technique="deterministic simulation of call histories: a long-lived interpreter executes seeded operation sequences (format_code, rules, pattern API, repeats, lazy iterators, eviction, aborts) under randomised cache-size knobs; each operation is compared with the same call in a pristine fork (reference model), every cache hit is checked against a fresh parse / compilation; ddmin-minimised op lists as replay files",
+  text="Seeded search over call histories (plus one systematic sweep: every vendored example input through its own rule and format_code twice in a row, plain and with an ignore comment) in a long-lived process, judged operation by operation against a history-free reference (fresh fork of the same zygote, same knobs, same observing wrappers) and by cache-faithfulness invariants checked at every cache hit and at every rule exit. Exploration: histories are unbounded; what is sampled is which inputs, rules and distances meet.",
+  note="Reference = same call in a fresh fork with identical knobs/wrappers; cache sizes are tuning knobs; aborted operations (injected BaseException at a seam) are not judged, only later ones. Input space limited to the vendored corpus (1031 example inputs of the repository), ignore-comment variants, joined snippets and a small module generator. Stale groupings of rule-private nodes are counted as observations, not violations.",
+  ref="DESIGN.md 4 (C05), 2.2 E2"),
 }
 
 def main():
